@@ -90,3 +90,35 @@ def c07_judge(o_bits, delay_bits, disp_bits, phc, bound):
     if bound > ceil_e + 1 + (ceil_e >> 50):
         return "bound-too-large", "published bound %d ns > ceil(%s) + 1 (offset %s s, dispersion %s s, delay %s s, phc %d)" % (bound, float(e), float(o), float(dp), float(dl), phc)
     return None
+
+
+def run_real_lives(ctx, lives, tolerate_build_failure=False):
+    """Long lives (7300 outcomes each) of the daemon's own writer thread entry point in a private /run.
+    Returns (violations, info)."""
+    import json
+    from . import sandbox
+    if not sandbox.available():
+        return [], {"inconclusive": "unshare -m with a private tmpfs on /run is not available"}
+    try:
+        b = build(ctx)
+    except Exception as e:  # Inconclusive: the tree does not compile with the harness
+        if tolerate_build_failure:
+            return [], {"skipped": "the daemon harness does not build against this tree (%s)" % e}
+        raise
+    cmds, outs = [], []
+    for i in range(lives):
+        o = os.path.join(ctx.tmp, "c08run-%d.json" % i)
+        outs.append(o)
+        cmds.append(sandbox.wrap([b, "c08run", "--seed", str(ctx.seed * 1000 + 77), "--count", str(lives), "--shard", "%d/%d" % (i, lives), "--out", o, "--replays", ctx.replay_dir]))
+    viol, info = [], {"lives": 0, "outcomes": 0}
+    for (rc, text), o in zip(ctx.run_parallel(cmds, 900), outs):
+        if rc != 0 or not os.path.exists(o):
+            info["inconclusive"] = "a long-life run did not finish: %s" % text[-200:]
+            continue
+        j = json.load(open(o))
+        if j.get("inconclusive"):
+            info["inconclusive"] = j["inconclusive"]
+        info["lives"] += j["evaluations"]
+        info["outcomes"] += sum(v for k, v in j.get("stats", {}).items() if k.startswith("outcome-"))
+        viol += j["violations"]
+    return viol, info
